@@ -71,10 +71,13 @@ def jobs(tier):
 
     for _ in range(reps):
         # pRRT: single goal state, several goal states (shared sampling position), a goal region
+        # (the worker that publishes the solution is held back right after the write, inside sol->lock; with several goal
+        #  states the third call of sampleGoal() is held back right before it touches the shared position)
         for q, gb in (("single", 0.05), ("goalstates", 0.5), ("goalstates", 0.5), ("region", 0.05), ("single", 0.05),
                       ("goalstates", 0.3)):
             add("pRRT", q, query=q, goalBias=gb, range=rng.choice(["tiny", "small"]), budget=rng.choice([300, 500, 800]),
-                map=MAPS[0] if q != "single" else None)
+                map=MAPS[0] if q != "single" else None,
+                stall=["pRRT.publish#1"] + (["GoalStates.sampleGoal#3"] if q == "goalstates" else []))
         # pSBL: plain runs, a valid-state sampler whose sampleNear() fails now and then, a second solve() after it
         # (long motions - range "huge" - are often invalid: the lazy validation queues them and the removal phase runs)
         # and a wall between start and goal keeps the planner from finishing early); in the open maps the first worker
@@ -84,10 +87,10 @@ def jobs(tier):
         # (every 7th tree insertion is held back inside its iteration: the others then find loopLock_ taken - try_lock fails)
         add("pSBL", "removal-contended", range="huge", budget=400, threads=3, map=(3, 3, [1, 4, 7], 0, 2),
             stall=["pSBL.addMotion%7"])
-        add("pSBL", "plain", range="small", budget=600, map=(3, 3, [], 0, 1), threads=3, stall=["pSBL.connectionPoint#1"])
-        add("pSBL", "plain", range="default", budget=400, map=(2, 1, [], 0, 1), stall=["pSBL.connectionPoint#1"])
-        add("pSBL", "plain", range="small", budget=500, map=(3, 3, [], 0, 1), threads=2, stall=["pSBL.connectionPoint#1"])
-        add("pSBL", "plain", range="small", budget=500, map=(2, 2, [], 0, 1), threads=3, stall=["pSBL.connectionPoint#1"])
+        add("pSBL", "plain", range="small", budget=600, map=(3, 3, [], 0, 1), threads=3, stall=["pSBL.connectionPoint#1", "pSBL.publish#1"])
+        add("pSBL", "plain", range="default", budget=400, map=(2, 1, [], 0, 1), stall=["pSBL.connectionPoint#1", "pSBL.publish#1"])
+        add("pSBL", "plain", range="small", budget=500, map=(3, 3, [], 0, 1), threads=2, stall=["pSBL.connectionPoint#1", "pSBL.publish#1"])
+        add("pSBL", "plain", range="small", budget=500, map=(2, 2, [], 0, 1), threads=3, stall=["pSBL.connectionPoint#1", "pSBL.publish#1"])
         add("pSBL", "flaky", range="small", budget=200, flakyEvery=rng.choice([5, 7, 11]))
         add("pSBL", "flaky", range="tiny", budget=160, flakyEvery=rng.choice([5, 7, 11]), threads=2)
         add("pSBL", "flaky-resolve", range="small", budget=120, flakyEvery=5, solves=2, threads=2)
